@@ -795,7 +795,7 @@ fn exercise_base(idx: usize, base: &[String], rng: &mut Rng, thorough: bool) -> 
 
 pub fn run(seed: u64, tier: &str, ev: &mut Evidence) -> Vec<Violation> {
     let thorough = tier == "thorough";
-    let (n_bases, n_malformed) = if thorough { (700usize, 30_000usize) } else { (64, 700) };
+    let (n_bases, n_malformed) = if thorough { (700usize, 40_000usize) } else { (200, 2500) };
     // ---- injection at every statement position -----------------------------------------------
     let mut bases: Vec<Vec<String>> = Vec::new();
     for j in 0..n_bases {
@@ -864,7 +864,7 @@ pub fn run(seed: u64, tier: &str, ev: &mut Evidence) -> Vec<Violation> {
         }
         stress_cases.push(StressCase { name: name.clone(), source: source.clone(), profile: Profile::Debug, path: Path::Staged });
     }
-    let n_graphs = if thorough { 40_000usize } else { 400 };
+    let n_graphs = if thorough { 60_000usize } else { 2000 };
     for j in 0..n_graphs {
         let mut rng = Rng::for_case(seed, "C10", "random-graph", j as u64);
         let source = random_graph_program(&mut rng);
